@@ -98,7 +98,9 @@ def ic_kwargs(entry, style, G, rng, rho=None):
     nodes = list(G)
     N = len(nodes)
     if style == "rho":
-        rho = rho if rho is not None else rng.choice([0.125, 0.25, 0.5])
+        # (rho = 0 exactly is a number, not "not given": nobody is infected and nothing happens; the scalar attack-rate wrappers
+        # document another meaning for rho = 0 and are left out)
+        rho = rho if rho is not None else rng.choice([0.125, 0.25, 0.5] + ([0.0] if not E[entry]["scalar"] else []))
         return dict(rho=rho), dict(style=style, rho=rho)
     if style == "default":
         return {}, dict(style=style, rho=1.0 / N)
